@@ -1,5 +1,6 @@
 import ZenonVerif.Model.Num
 import ZenonVerif.Model.Pow
 import ZenonVerif.Model.Rpc
+import ZenonVerif.Model.Wallet
 import ZenonVerif.Props.C12
 import ZenonVerif.Props.C18
